@@ -566,8 +566,8 @@ def readSfl (s : Str) : Except ReadErr (Dec × Bool) :=
 def readSplit (s : Str) : Except ReadErr SplitRatio :=
   match parseSplit s with | some d => .ok d | none => .error .split
 
-/-- `csvtx_from_csv_values` over the cell look-up `get`. -/
-def csvTxOfValues (get : Col → Option Str) (idx : Nat) : Except ReadErr CsvTx := do
+/-- the cells of one row → fields of a `CsvTx` (read index filled in by `csvTxOfValues`). -/
+def csvFields (get : Col → Option Str) : Except ReadErr CsvTx := do
   let tradeDate ← optParse (get .tradeDate) readDate
   let sDate ← optParse (get .settleDate) readDate
   let legacy ← optParse (get .legacyDate) readDate
@@ -587,7 +587,13 @@ def csvTxOfValues (get : Col → Option Str) (idx : Nat) : Except ReadErr CsvTx 
     commCurr := (get .commCurr).map currencyNew, commFx := commFx,
     memo := get .memo,
     affiliate := (get .affiliate).bind (fun s => if (trim s).isEmpty then none else some (fromStrep s)),
-    sfl := sfl, split := split, readIndex := idx }
+    sfl := sfl, split := split, readIndex := 0 }
+
+/-- `csvtx_from_csv_values` over the cell look-up `get`. -/
+def csvTxOfValues (get : Col → Option Str) (idx : Nat) : Except ReadErr CsvTx :=
+  match csvFields get with
+  | .error e => .error e
+  | .ok c => .ok { c with readIndex := idx }
 
 def readRows (cols : List (Option Col)) : List (List Str) → Nat → Except ReadErr (List CsvTx)
   | [], _ => .ok []
